@@ -112,3 +112,75 @@ Theorem C17_timed_refuted : exists pre post p d t0 t,
   query_answer_v0 wiring_now (pre ++ Block p d t0 :: post) p t = false.
 Proof. exact timed_refuted_v0. Qed.
 Print Assumptions C17_timed_refuted.
+
+(* ---- composition with C04 (proofs/Compose_p2p.v) -----------------------------------------------------------
+   The Block events above are placed by handleConnectReq / Connect when a handshake is refused
+   (model/Handshake.v: effect EBlock d).  [Compose_p2p.block_events p t0 effs] turns the EBlock effects of
+   one such call into the blockPeer calls on the remote peer id p at time t0 (the blocked peer is the
+   remote of the failed handshake: Blocklist_proofs.inbound_blocks_remote / outbound_blocks_remote).
+   Everything holds for every configuration, oracle answers, write failures, script, whatever the list saw
+   before (pre) and sees afterwards (post).
+   Non-vacuity: Compose_p2p.ex_refusals, Compose_p2p.ex_blocked_later. *)
+From MevVerif Require model.Handshake proofs.Compose_p2p.
+
+(* C04 o C17 (C04_refusal_blocks, C17_permanent, C17_gater_calls).  After an inbound handshake refused for
+   a bad signature or an address mismatch the peer is blocked at EVERY time, whatever else happens, and the
+   gater of the node as wired by libp2p.New refuses to dial it and refuses its secured connections. *)
+Theorem C17_inbound_identity_failure_blocks_for_ever :
+  forall c o wfail script p t0 pre post has_notifier add cl,
+  Handshake.res (Handshake.handle c o wfail script) = Handshake.Refuse cl ->
+  cl = Handshake.RSig \/ cl = Handshake.RAddr ->
+  let evs := pre ++ Compose_p2p.block_events p t0 (Handshake.inbound c o wfail script has_notifier add) ++ post in
+  forall t,
+    query_answer wiring_now evs p t = true /\
+    dial_answer wiring_now evs p t = false /\ secured_answer wiring_now evs p t = false.
+Proof. exact Compose_p2p.inbound_identity_failure_blocks_for_ever. Qed.
+Print Assumptions C17_inbound_identity_failure_blocks_for_ever.
+
+(* The same after Connect (outbound) got such a refusal. *)
+Theorem C17_outbound_identity_failure_blocks_for_ever :
+  forall c o wfail script p t0 pre post add cl,
+  Handshake.res (Handshake.handshake c o wfail script) = Handshake.Refuse cl ->
+  cl = Handshake.RSig \/ cl = Handshake.RAddr ->
+  let evs := pre ++ Compose_p2p.block_events p t0 (Handshake.outbound c o wfail script add) ++ post in
+  forall t,
+    query_answer wiring_now evs p t = true /\
+    dial_answer wiring_now evs p t = false /\ secured_answer wiring_now evs p t = false.
+Proof. exact Compose_p2p.outbound_identity_failure_blocks_for_ever. Qed.
+Print Assumptions C17_outbound_identity_failure_blocks_for_ever.
+
+(* C04 o C17 (C17_timed_full_term).  Insufficient stake: blocked for the full 2 minutes (inbound) ... *)
+Theorem C17_inbound_stake_failure_blocks_full_term :
+  forall c o wfail script p t0 pre post has_notifier add,
+  Handshake.res (Handshake.handle c o wfail script) = Handshake.Refuse Handshake.RStake ->
+  let evs := pre ++ Compose_p2p.block_events p t0 (Handshake.inbound c o wfail script has_notifier add) ++ post in
+  forall t, Forall (fun e => time_of e <= t) post -> t <= t0 + 120000000000 ->
+    query_answer wiring_now evs p t = true /\
+    dial_answer wiring_now evs p t = false /\ secured_answer wiring_now evs p t = false.
+Proof. exact Compose_p2p.inbound_stake_failure_blocks_full_term. Qed.
+Print Assumptions C17_inbound_stake_failure_blocks_full_term.
+
+(* ... and 5 minutes (outbound), whatever precedes and whatever follows up to the time of the question. *)
+Theorem C17_outbound_stake_failure_blocks_full_term :
+  forall c o wfail script p t0 pre post add,
+  Handshake.res (Handshake.handshake c o wfail script) = Handshake.Refuse Handshake.RStake ->
+  let evs := pre ++ Compose_p2p.block_events p t0 (Handshake.outbound c o wfail script add) ++ post in
+  forall t, Forall (fun e => time_of e <= t) post -> t <= t0 + 300000000000 ->
+    query_answer wiring_now evs p t = true /\
+    dial_answer wiring_now evs p t = false /\ secured_answer wiring_now evs p t = false.
+Proof. exact Compose_p2p.outbound_stake_failure_blocks_full_term. Qed.
+Print Assumptions C17_outbound_stake_failure_blocks_full_term.
+
+(* The two models of the same two switch statements agree: model/Handshake.v reads the durations by
+   position (c04_* anchors), model/Blocklist.v looks them up by the name of the error (c17_* anchors). *)
+Theorem C17_durations_agree_with_C04 : forall f has_notifier add,
+  exists dur,
+    inbound_block_duration f = Some dur /\
+    Handshake.handle_connect_req has_notifier add (Handshake.Refuse (Compose_p2p.refusal_of f)) =
+      [Handshake.EResetStream; Handshake.EClosePeer; Handshake.EBlock dur] /\
+  exists dur',
+    outbound_block_duration f = Some dur' /\
+    Handshake.connect add (Handshake.Refuse (Compose_p2p.refusal_of f)) =
+      [Handshake.EClosePeer; Handshake.EBlock dur'; Handshake.EReturnErr (Compose_p2p.refusal_of f)].
+Proof. exact Compose_p2p.durations_agree. Qed.
+Print Assumptions C17_durations_agree_with_C04.
